@@ -55,12 +55,13 @@ def classify(obs, mn, err):
                 line = text.split('\n')[nos[0] - 1]
     ma = re.match(r'(\w+)\.registerAugmentions\(', line.strip())
     if err.startswith('NameError') and ma:
-        # the recorded defect: the augmented row has the larger OID (or is not a row of this module at all), so it is defined later
+        # the recorded defect: the augmented row of this module has the larger OID, so it is defined later
         oids = {mibgen.jname(n): t.get('oid') for (m2, n), t in obs['gen'].truth.items() if m2 == mn}
         base_oid = oids.get(ma.group(1))
         mm = re.search(r'"%s",\s*"(\w+)"' % re.escape(mn), text[text.index(line):][:300]) if line in text else None
         aug_oid = oids.get(mm.group(1)) if mm else None
-        if base_oid is None or aug_oid is None or list(base_oid) > list(aug_oid):
+        # (a base row of another module is defined by the import statement at the top: a NameError on it is something else)
+        if base_oid is not None and (aug_oid is None or list(base_oid) > list(aug_oid)):
             return 'augments-forward-reference'
         return 'pysnmp-exec'
     kinds = {mibgen.jname(n): t['kind'] for (m2, n), t in obs['gen'].truth.items() if m2 == mn}
@@ -315,7 +316,7 @@ def run(ctx):
             for name, t in vg.truth.items():
                 if t['class'] == 'type':
                     continue
-                o = exp.get(name)
+                o = exp.get(name, exp.get(mibgen.jname(name)))      # (a hyphenated name is exported under its Python spelling: recorded finding)
                 if o is None or ('oid' in t and recbuilder.describe(o).get('oid') != list(t['oid'])):
                     res.oracle_failures.append({'key': 'object-oid', 'what': '%s: exported %r, the SMIv1 text defines OID %s' % (name, o and recbuilder.describe(o).get('oid'), t.get('oid')), 'input': inp})
                     break
